@@ -84,6 +84,7 @@ def state_diff(a, b, limit=5):
 def run_history(ctx, env, hist, kind):
     """Returns True if the history ran to its end without a violation."""
     graphs = env.fresh()
+    pgmodel.reset_args()
     model = Model()
     use_disjoint = True
     changed = False
@@ -219,11 +220,16 @@ def run(ctx):
         if r < 0.3:
             # merge-heavy histories on two graphs that share node ids (what the combined-model code does)
             hist = list(OVERLAP_STATE)
+            # one policy for the whole loop of merges (the usual calling idiom) in half of these histories
+            one_pol = {p: rng.choice(['overwrite', 'combine']) for p in rng.sample(['p', 'Name'], rng.randrange(1, 3))} \
+                if rng.random() < 0.5 else None
             for _ in range(L):
                 if rng.random() < 0.35:
                     g = rng.choice(pgmodel.GIDS)
-                    pol = None if rng.random() < 0.4 else {p: rng.choice(['discard', 'overwrite', 'combine'])
-                                                           for p in rng.sample(['p', 'Name'], rng.randrange(1, 3))}
+                    pol = one_pol or (None if rng.random() < 0.4 else {p: rng.choice(['discard', 'overwrite', 'combine'])
+                                                                       for p in rng.sample(['p', 'Name'], rng.randrange(1, 3))})
+                    if one_pol:
+                        ctx.count('merge:policy-object-reused')
                     hist.append({'op': 'merge_nodes', 'g': g, 'nid': rng.choice(pgmodel.NIDS),
                                  'other': [x for x in pgmodel.GIDS if x != g][0], 'policy': pol})
                 else:
